@@ -69,5 +69,10 @@ finally:
     sh("git -C /repo checkout -- .")
     sh("rm -rf /verif/replays")
 meta["detected_by"] = [x["check"] for x in meta["ran"] if x["exit"] == 1]
+try:
+    meta["needs"] = json.load(open("/verif/seeded/needs.json")).get(name, meta.get("needs", ""))
+except Exception:
+    pass
+meta["base_property"] = a.pid[:3]
 json.dump(meta, open(os.path.join(out, "meta.json"), "w"), indent=1)
 print("stored in", out, "detected by", meta["detected_by"])
